@@ -12,7 +12,10 @@ from sylib import *
 NAMES = ["a", "b", "c.txt", "d.bin", "d.dat", "e f", "ü.txt", "x.sy.tmp", ".hidden", "k.log", "data", "n1", "n2", "caf\udce9.txt", "README.md",
          # long names (legal: <= 255 bytes), multi-byte with the three possible byte alignments (seeded change C10b: a message
          # cut at a fixed byte offset), and long ASCII
-         "文" * 58, "x" + "文" * 58, "xy" + "文" * 58, "L" * 200]
+         "文" * 58, "x" + "文" * 58, "xy" + "文" * 58, "L" * 200,
+         # siblings of the directory names below whose next byte sorts BEFORE '/' (seeded changes C16 round 1 and C15b: byte-wise
+         # vs component-wise order / prefix tests)
+         "sub.txt", "dir-old", "logs.1", "deep+x"]
 # ("caf\udce9.txt" is the byte string caf\xe9.txt: a file name that is not valid UTF-8)
 
 OWN_FILES = (".sy-checksums.db", ".sy-dir-cache.json", ".sy-state.json")
@@ -110,6 +113,11 @@ def gen_dst(rng, src, opts):
             continue
         if k < 30: continue                                    # absent
         off = rng.pick(OFFS)
+        # user xattrs an earlier run (or the user) left on the destination file: equal, stale, or extra keys (seeded change C17b)
+        dx = None
+        if opts.get("xattrs") and rng.chance(1, 2):
+            dx = dict(n.get("xattrs") or {}) if rng.chance(1, 3) else {}
+            for _ in range(rng.range(0, 2)): dx["user." + rng.pick(["a", "b", "k", "old"])] = rng.bytes(rng.range(0, 6))
         if k < 55: dst[rel] = F(n["data"], n["mtime"] + (off if rng.chance(1, 3) else 0))       # equal content, mtime near
         elif k < 70: dst[rel] = F(mutate_data(rng, n["data"]), n["mtime"] + off)                 # stale
         elif k < 80: dst[rel] = F(mutate_data(rng, n["data"]), n["mtime"])                       # stale, same mtime
@@ -119,6 +127,7 @@ def gen_dst(rng, src, opts):
             dst[rel] = D()
             if rng.chance(1, 2): dst[rel + "/inner"] = F(b"inner")
         else: dst[rel] = F(n["data"], n["mtime"] + off)
+        if dx and dst.get(rel, {}).get("k") == "f": dst[rel]["xattrs"] = dx
     # extras
     dirs = [""] + [r for r, n in dst.items() if n["k"] == "d"]
     src_files = [r for r in src if src[r]["k"] != "d"]
